@@ -135,7 +135,8 @@ func plan(chk Check, o *Options) Plan {
 }
 
 func oneRunMain(chk Check, o *Options) int {
-	if err := chk.Init(o.Tier, 0, 1, o.Seed); err != nil {
+	p := plan(chk, o)
+	if err := chk.Init(o.Tier, int(uint64(o.OneRun)%uint64(p.Workers)), p.Workers, o.Seed); err != nil {
 		fatal2("init: %v", err)
 	}
 	c := &Ctx{T: tape.New(o.Seed, uint64(o.OneRun)), S: NewStats(), Log: &EvLog{}, Tier: o.Tier, Seed: o.Seed, Run: uint64(o.OneRun)}
@@ -345,15 +346,16 @@ func coordinatorMain(chk Check, o *Options) int {
 	nviol := 0
 	var violationLines []string
 	if len(fresh) > 0 {
-		// minimisation and replay need an initialised check in this process
-		if err := chk.Init(o.Tier, 0, 1, o.Seed); err != nil {
-			fatal2("init for minimisation: %v", err)
-		}
 		if len(fresh) > 4 {
 			fresh = fresh[:4]
 		}
 		for _, fv := range fresh {
+			// minimisation needs the check initialised exactly as the worker that ran this run was
+			if err := chk.Init(o.Tier, int(fv.Run%uint64(p.Workers)), p.Workers, o.Seed); err != nil {
+				fatal2("init for minimisation: %v", err)
+			}
 			rf := minimise(chk, o, p, fv)
+			rf.Worker, rf.NWorkers = int(fv.Run%uint64(p.Workers)), p.Workers
 			os.MkdirAll(o.ReplayDir, 0o755)
 			name := fmt.Sprintf("%s-%s-seed%d-run%d.json", id, sanitize(rf.Violation.Class), o.Seed, fv.Run)
 			path := filepath.Join(o.ReplayDir, name)
@@ -581,7 +583,10 @@ func replayMain(chk Check, o *Options) int {
 	}
 	o.Tier = rf.Tier
 	o.Seed = rf.Seed
-	if err := chk.Init(o.Tier, 0, 1, o.Seed); err != nil {
+	if rf.NWorkers <= 0 {
+		rf.NWorkers = 1
+	}
+	if err := chk.Init(o.Tier, rf.Worker, rf.NWorkers, o.Seed); err != nil {
 		fatal2("init: %v", err)
 	}
 	v, c := runTape(chk, o, rf.Run, rf.Tape, true)
